@@ -47,9 +47,13 @@ impl TxOut {
 
 /// Request context with a deadline far beyond tarpc's default of ten seconds: on a loaded machine a
 /// transaction may wait that long for a core, and a transport timeout is not an observation.
+/// Account-lock limit of the runtime with every feature active (`increase_tx_account_lock_limit`).
+const MAX_TX_ACCOUNT_LOCKS: usize = 128;
+
 fn long_ctx() -> tarpc::context::Context {
     let mut c = tarpc::context::current();
-    c.deadline = std::time::SystemTime::now() + std::time::Duration::from_secs(1800);
+    let secs = std::env::var("VERIF_TX_DEADLINE_S").ok().and_then(|v| v.parse().ok()).unwrap_or(1800u64);
+    c.deadline = std::time::SystemTime::now() + std::time::Duration::from_secs(secs);
     c
 }
 
@@ -140,6 +144,13 @@ impl Chain {
         if !tx.is_signed() {
             return TxOut { result: Err(TransactionError::SignatureFailure), events: vec![], simulated: false };
         }
+        if tx.message.account_keys.len() > MAX_TX_ACCOUNT_LOCKS {
+            // the runtime drops such a transaction when it takes the account locks and records no
+            // status for it (the banks server would poll for one for ever)
+            return TxOut { result: Err(TransactionError::TooManyAccountLocks), events: vec![], simulated: false };
+        }
+        let (n_keys, n_ix) = (tx.message.account_keys.len(), tx.message.instructions.len());
+        let progs: Vec<String> = tx.message.instructions.iter().map(|i| format!("{}:{}", tx.message.account_keys[i.program_id_index as usize], i.data.iter().take(8).map(|b| format!("{:02x}", b)).collect::<String>())).collect();
         let r = match self.ctx.banks_client.process_transaction_with_commitment_and_context(long_ctx(), tx, CommitmentLevel::default()).await {
             Ok(None) => Err(solana_program_test::BanksClientError::ClientError("invalid blockhash or fee-payer")),
             Ok(Some(Ok(()))) => Ok(()),
@@ -151,7 +162,7 @@ impl Chain {
             Ok(()) => Ok(()),
             Err(solana_program_test::BanksClientError::TransactionError(e)) => Err(e),
             Err(solana_program_test::BanksClientError::SimulationError { err, .. }) => Err(err),
-            Err(e) => panic!("harness transport error: {:?}", e),
+            Err(e) => panic!("harness transport error: {:?} (transaction with {} account keys, {} instructions, programs {:?})", e, n_keys, n_ix, progs),
         };
         TxOut { result, events, simulated: false }
     }
@@ -163,6 +174,9 @@ impl Chain {
         self.tx_sim += 1;
         if !tx.is_signed() {
             return TxOut { result: Err(TransactionError::SignatureFailure), events: vec![], simulated: true };
+        }
+        if tx.message.account_keys.len() > MAX_TX_ACCOUNT_LOCKS {
+            return TxOut { result: Err(TransactionError::TooManyAccountLocks), events: vec![], simulated: true };
         }
         let r = self.ctx.banks_client.simulate_transaction_with_commitment_and_context(long_ctx(), tx, CommitmentLevel::default()).await.expect("simulate transport");
         let events = tap::drain();
